@@ -355,6 +355,17 @@ func (it *Interp) wakeWaiting() bool {
 	if woke {
 		return true
 	}
+	// library-side waiters first; the harness main goroutine only when nothing else is left
+	for _, g := range quiesce {
+		if !g.isMain {
+			g.status = gRunnable
+			g.waitFn = nil
+			woke = true
+		}
+	}
+	if woke {
+		return true
+	}
 	for _, g := range quiesce {
 		g.status = gRunnable
 		g.waitFn = nil
